@@ -175,7 +175,7 @@ H("c04_bc_view_inview", T, "C04", ["C04", "C05", "C03"], "quick",
   "broadcast in-place viewer, instrumented payload: the producer tries to wrap the ring while the view closure runs",
   "N=2, injection only inside the view closure, up to 3 sends there, teardown checked")
 H("c04_mp_view_inview", T, "C05", ["C04", "C05", "C03"], "quick",
-  "mpmc in-place viewer (value dropped in place after the view), instrumented payload, producer wraps the ring inside the closure",
+  "mpmc in-place viewer (value dropped in place after the view), instrumented payload, producer wraps the ring inside the closure and inside the destructor of the viewed value",
   "N=2, injection only inside the view closure, up to 3 sends there, teardown checked")
 H("c06_bc_sibdrop_inclone", T, "C06", ["C06", "C12", "C04", "C05"], "quick",
   "broadcast shared stream, instrumented payload: consumer A is in the middle of clone() when its sibling handle is dropped (consumers 2->1) and the producer sends",
